@@ -259,6 +259,9 @@ fn pick_content(rng: &mut Rng, pt: Pt) -> Content {
     if pt.comp_kind() == 3 && rng.chance(1, 14) {
         return Content::Tiny;
     }
+    if pt.comp_kind() == 3 && rng.chance(1, 8) {
+        return Content::Cancel;
+    }
     match rng.below(13) {
         0..=6 => Content::Random,
         7 => Content::Ramp,
@@ -571,15 +574,23 @@ pub fn gen_alpha(rng: &mut Rng, max_dim: u32, allow_sim: bool, classes: &mut Vec
             src.content = Content::AlphaEdges;
         }
         let (mut w2, mut h2) = (w, h);
-        if rng.chance(1, 40) {
-            w2 += 1;
-            classes.push("alpha-size-mismatch".into());
-        } else if rng.chance(1, 40) {
-            h2 = h2.saturating_sub(1);
+        if rng.chance(1, 20) {
+            (w2, h2) = mismatch(rng, w, h);
             classes.push("alpha-size-mismatch".into());
         }
         let dst = mk_img(rng, w2, h2, dk, pt, true, yield_rows);
         AlphaOp { pt, src: Some(src), dst, divide: rng.chance(1, 2) }
+    }
+}
+
+/// a destination size that differs from (w, h): in one dimension only (either way) or in both
+fn mismatch(rng: &mut Rng, w: u32, h: u32) -> (u32, u32) {
+    match rng.below(5) {
+        0 => (w + 1, h),
+        1 => (w, h + 1),
+        2 => (w.saturating_sub(1).max(1), h),
+        3 => (w, h.saturating_sub(1).max(1)),
+        _ => (w + 1, h + 1),
     }
 }
 
@@ -620,7 +631,7 @@ pub fn gen_map(rng: &mut Rng, max_dim: u32, classes: &mut Vec<String>) -> MapOp 
             }
         };
         let src = mk_img(rng, w, h, sk, pt, false, false);
-        let (w2, h2) = if rng.chance(1, 30) { (w + 1, h) } else { (w, h) };
+        let (w2, h2) = if rng.chance(1, 30) { mismatch(rng, w, h) } else { (w, h) };
         let dst = mk_img(rng, w2, h2, dk, dst_pt, true, false);
         MapOp { pt, dst_pt, srgb: rng.chance(1, 2), forward: rng.chance(1, 2), src: Some(src), dst }
     }
@@ -659,7 +670,7 @@ pub fn gen_convert(rng: &mut Rng, max_dim: u32, classes: &mut Vec<String>) -> Co
         }
     };
     let src = mk_img(rng, w, h, sk, pt, false, false);
-    let (w2, h2) = if rng.chance(1, 30) { (w, h + 1) } else { (w, h) };
+    let (w2, h2) = if rng.chance(1, 30) { mismatch(rng, w, h) } else { (w, h) };
     let dst = mk_img(rng, w2, h2, dk, dst_pt, true, false);
     ConvertOp { pt, dst_pt, src, dst }
 }
